@@ -2,5 +2,32 @@
 
 package optdec
 
+import "github.com/bytedance/sonic/internal/native/types"
+
 // SimResetCache: see caching.(*ProgramCache).SimReset. Overlay-added by /verif.
 func SimResetCache(capacity int) { programCache.SimReset(capacity) }
+
+// SimParserGeometry makes every parser created from now on start with a private-copy
+// buffer of capacity capN whose spare bytes hold junk (what an earlier, longer document
+// leaves behind in a recycled buffer), and with room for nodeCap DOM nodes. capN < 0
+// restores the shipped sizes. A knob of the simulator: the shipped constants (1 MiB) put
+// the reallocation paths out of reach of small inputs.
+func SimParserGeometry(capN int, junk []byte, nodeCap int) {
+	if capN < 0 {
+		capN, nodeCap, junk = int(defaultJsonPaddedCap), int(defaultNodesCap), nil
+	}
+	parsePool.New = func() interface{} {
+		pad := make([]byte, capN)
+		for i := range pad {
+			if len(junk) > 0 {
+				pad[i] = junk[i%len(junk)]
+			}
+		}
+		return &Parser{
+			options: 0,
+			padded:  pad[:0],
+			nodes:   make([]node, nodeCap, nodeCap),
+			dbuf:    make([]byte, types.MaxDigitNums, types.MaxDigitNums),
+		}
+	}
+}
